@@ -2,6 +2,7 @@ package desync
 
 import (
 	gnutar "archive/tar"
+	"fmt"
 	"io"
 	"io/ioutil"
 	"os"
@@ -98,6 +99,7 @@ func (fs TarWriter) Close() error {
 type TarReader struct {
 	r *gnutar.Reader
 	root *File
+	addRoot bool
 }
 
 type TarReaderOptions struct {
@@ -120,6 +122,7 @@ func NewTarReader(r io.Reader, opts TarReaderOptions) *TarReader {
 	return &TarReader{
 		r: gnutar.NewReader(r),
 		root: root,
+		addRoot: opts.AddRoot,
 	}
 }
 
@@ -135,6 +138,17 @@ func (fs *TarReader) Next() (f *File, err error) {
 	h, err := fs.r.Next()
 	if err != nil {
 		return nil, err
+	}
+
+	// With AddRoot the root directory is the one made up above. A member that
+	// is the root of the stream itself ("./", as written by 'tar c .') must not
+	// become an entry named "." inside it, which is not a valid name in an
+	// archive: leave it out, what it holds follows and ends up in the root.
+	for fs.addRoot && path.Clean(h.Name) == "." {
+		fmt.Fprintf(os.Stderr, "skipping '%s' : root of the tar stream, a root directory is added already\n", h.Name)
+		if h, err = fs.r.Next(); err != nil {
+			return nil, err
+		}
 	}
 
 	info := h.FileInfo()
